@@ -64,6 +64,7 @@ def run_family(rep, tier, replay, prop, mix, probes, quick, thorough, by_kinds=F
             p = sesslib.Puppet(src, *b)
             p.lifecycle = bool(cfg.get("lifecycle"))
             p.signals = bool(cfg.get("signals"))
+            p.extras = bool(cfg.get("extras"))
             if p.ambiguous:
                 raise vlib.ToolError(f"{p.key}: {p.ambiguous} (pc, TICK) pairs are not unique; stops cannot be identified")
             cands = pick_cands(p, cfg["ncands"], rng)
@@ -125,8 +126,7 @@ def attach_variant(p, scr):
         if c["cmd"] == "start":
             c = {"cmd": "continue"}
         cmds.append(c)
-    tick = p.meta["tick_addr"]
-    cmds.append({"cmd": "watch_addr", "addr": tick, "size": 8})
+    cmds.append({"cmd": "watch_addr", "addr": sesslib.nm_symbols(p.exe)["WATCHME"][0], "size": 8})
     cmds.append({"cmd": "detach"} if len(cmds) % 2 == 0 else {"cmd": "noop"})
     s2 = dict(scr)
     s2["cmds"] = cmds
